@@ -683,6 +683,22 @@ class _Run(object):
                 st2 = dict(st)
                 st2[left.id] = nv
                 return st2
+            # X.get("k") in (None, ...) is false / X.get("k") is not None  =>  "k" is present in X
+            if isinstance(left, ast.Call) and isinstance(left.func, ast.Attribute) and left.func.attr == "get" and isinstance(left.func.value, ast.Name) \
+                    and left.args and isinstance(left.args[0], ast.Constant) and (len(left.args) == 1 or (isinstance(left.args[1], ast.Constant) and left.args[1].value is None)):
+                present = None
+                if isinstance(op, (ast.In, ast.NotIn)) and isinstance(right, (ast.Tuple, ast.List, ast.Set)) and \
+                        any(isinstance(x, ast.Constant) and x.value is None for x in right.elts):
+                    present = (not pol) if isinstance(op, ast.In) else pol
+                elif isinstance(op, (ast.Is, ast.IsNot)) and isinstance(right, ast.Constant) and right.value is None:
+                    present = (not pol) if isinstance(op, ast.Is) else pol
+                if present:
+                    v = st.get(left.func.value.id, ANY)
+                    if "dict" in v.types and isinstance(left.args[0].value, str):
+                        st2 = dict(st)
+                        st2[left.func.value.id] = AV(v.types, v.keys | frozenset([left.args[0].value]), True, v.cls)
+                        return st2
+                return st
             if isinstance(op, (ast.In, ast.NotIn)) and isinstance(left, ast.Constant) and isinstance(right, ast.Name):
                 v = st.get(right.id, ANY)
                 present = pol if isinstance(op, ast.In) else not pol
